@@ -65,6 +65,7 @@ type Enc struct {
 	qCtr      int
 	strs      map[string]string
 	constGlobs []T
+	inlineStack []*ssa.Function
 	pkg       *ssa.Package
 }
 
